@@ -327,7 +327,10 @@ def run_seq_check(prop, tier, flags, plan, seed, design_ref, extra_assumptions=N
                             hit = kf
                             break
                     if hit:
-                        kf_hits.setdefault(hit['id'], [0, hit])[0] += 1
+                        e = kf_hits.setdefault(hit['id'], [0, hit, None])
+                        e[0] += 1
+                        if e[2] is None:
+                            e[2] = (flag, v, reset, stims)
                     else:
                         key = (flag, json.dumps(reset['root'], sort_keys=True), json.dumps(reset['cfg'], sort_keys=True))
                         if key in seen_v:
@@ -344,7 +347,11 @@ def run_seq_check(prop, tier, flags, plan, seed, design_ref, extra_assumptions=N
             with open(path, 'w') as f:
                 json.dump(body, f, indent=1)
             out_lines.append('VIOLATION property=%s replay=%s' % (prop, path))
-        for kid, (cnt, kf) in sorted(kf_hits.items()):
+        for kid, (cnt, kf, ex) in sorted(kf_hits.items()):
+            flag, v, reset, stims = ex
+            with open('%s/replays/%s/%s.json' % (V, prop, kid), 'w') as f:
+                json.dump({'property': prop, 'monitor': flag, 'known_finding': kid, 'rejected_at_line': v['rej'][flag], 'kind': 'seq',
+                           'case': {'root': reset['root'], 'cfg': reset['cfg'], 'rev': reset['rev'], 'stims': [{'st': x['st']} for x in stims]}, 'observed': stims}, f, indent=1)
             out_lines.append('KNOWN-FINDING: property=%s %s [%s; %d executions]' % (prop, kf['what'], kid, cnt))
         if drift:
             out_lines.append('MODEL-DRIFT property=%s %d recorded executions are accepted/rejected by L2 as reported but differ from the L1 model (TLC exhaustive result no longer transfers)' % (prop, drift))
@@ -365,7 +372,7 @@ def run_seq_check(prop, tier, flags, plan, seed, design_ref, extra_assumptions=N
                 'cases_agreeing_with_L1_model': tot['agree'], 'cases_differing_from_L1_model': tot['differ'],
                 'predicted_stuck_or_budget_verdicts_confirmed': tot['nonok_confirmed'],
                 'operators_exercised': ops, 'monitors': flags,
-                'l2_rejections_known': {k: c for k, (c, _) in kf_hits.items()}, 'l2_rejections_new': len(violations), 'model_drift_traces': drift,
+                'l2_rejections_known': {k: c[0] for k, c in kf_hits.items()}, 'l2_rejections_new': len(violations), 'model_drift_traces': drift,
             },
             'assumptions': ['bounded: histories of at most max_stimuli stimuli, items from {0,1,2}, parameters as listed in spec/RxSeqMC.tla',
                             'the facade (rt/arx_vstd) behaves like std::sync / std::thread for a single logical thread',
